@@ -75,8 +75,21 @@ pub use Out::*;
 static SLOW: Mutex<Vec<u32>> = Mutex::new(Vec::new());
 /// callbacks that take their time (a sibling's failure must not let the caller go on before they are done)
 pub fn set_slow(ids: &[u32]) { *SLOW.lock().unwrap_or_else(|e| e.into_inner()) = ids.to_vec(); }
+static WAITERS: Mutex<Vec<u32>> = Mutex::new(Vec::new());
+static RELEASED: std::sync::atomic::AtomicU64 = std::sync::atomic::AtomicU64::new(0);
+/// callbacks that do not return before the program around them is over (a sibling's panic must reach the caller all the same)
+pub fn set_waiters(ids: &[u32]) { *WAITERS.lock().unwrap_or_else(|e| e.into_inner()) = ids.to_vec(); }
+pub fn release_waiters() { RELEASED.fetch_add(1, std::sync::atomic::Ordering::SeqCst); }
 fn cb(id: u32) {
     if id != 0 {
+        let waits = WAITERS.lock().unwrap_or_else(|e| e.into_inner()).contains(&id);
+        if waits {
+            let g = RELEASED.load(std::sync::atomic::Ordering::SeqCst);
+            let t0 = std::time::Instant::now();
+            while RELEASED.load(std::sync::atomic::Ordering::SeqCst) == g && t0.elapsed().as_secs() < 60 {
+                std::thread::sleep(std::time::Duration::from_millis(5));
+            }
+        }
         let slow = SLOW.lock().unwrap_or_else(|e| e.into_inner()).contains(&id);
         if slow { std::thread::sleep(std::time::Duration::from_millis(80)); }
         log(format!("cb:{}", id));
@@ -333,7 +346,9 @@ class Prog:
         else:
             run = inv
         slow = "set_slow(&[%s]); " % ", ".join(str(i + self.base) for i in getattr(self, "slow", []))
+        slow += "set_waiters(&[%s]); " % ", ".join(str(i + self.base) for i in getattr(self, "waiters", []))
         return ("fn %s() -> String {\n    %slet r = std::panic::catch_unwind(|| { let __res = %s; __res.show() });\n"
+                "    release_waiters();\n"
                 "    match r { Ok(s) => format!(\"ok {}\", s), Err(e) => format!(\"panic {}\", panic_text(e)) }\n}\n"
                 % (self.pid, slow, run))
 
@@ -396,7 +411,11 @@ def _build_and_run(name, source, with_async, timeout):
     t = time.time()
     rc, out, err = runner.sh(["cargo", "build", "--offline", "--quiet"], cwd=d, env=env, timeout=timeout)
     if rc != 0:
-        return False, "", err[-6000:]
+        # keep the first error (with its `--> src/main.rs:LINE` reference: the program to blame) as well as the end of the log;
+        # the lines rustc echoes can be thousands of characters long
+        m = re.search(r"^error(\[E\d+\])?:", err, re.M)
+        head = err[m.start():m.start() + 3000] + "\n[…]\n" if m and m.start() < len(err) - 6000 else ""
+        return False, "", head + err[-6000:]
     tb = time.time() - t
     try:
         rc, out, err = runner.sh([os.path.join(K2TARGET, "debug", name)], cwd=d, env=env, timeout=timeout)
@@ -676,6 +695,7 @@ def report(ctx, results, signature_fn=None):
                                   "a thread named `main`, then the same call site again from a thread named `w2`" if p.pid.endswith("_2")
                                   else "a thread named `main`"),
                 "slow_callbacks": [i + p.base for i in getattr(p, "slow", [])],
+                "waiting_callbacks": [i + p.base for i in getattr(p, "waiters", [])],
                 "how_to_replay": "./check %s --replay <this file>  (compiles the program against /repo and re-compares)" % ctx.pid,
             }, found_input=True, signature=sig)
     return n_impl
@@ -700,9 +720,10 @@ def replay(obj):
     unnamed = "without a name" in obj.get("caller_thread", "")
     pid = "p0" + ("_2" if second else "_u" if unnamed else "")
     slow = obj.get("slow_callbacks", [])
-    fn = ("fn %s() -> String {\n    set_slow(&[%s]); let r = std::panic::catch_unwind(|| { let __res = %s; __res.show() });\n"
+    fn = ("fn %s() -> String {\n    set_slow(&[%s]); set_waiters(&[%s]); let r = std::panic::catch_unwind(|| { let __res = %s; __res.show() });\n"
+          "    release_waiters();\n"
           "    match r { Ok(s) => format!(\"ok {}\", s), Err(e) => format!(\"panic {}\", panic_text(e)) }\n}\n"
-          % (pid, ", ".join(str(i) for i in slow), prog))
+          % (pid, ", ".join(str(i) for i in slow), ", ".join(str(i) for i in obj.get("waiting_callbacks", [])), prog))
     src = PRELUDE_SYNC + fn + MAIN_SYNC % ('("%s", %s as fn() -> String)' % (pid, pid))
     ok, out, log = build_and_run("k2replay", src)
     if not ok:
@@ -874,6 +895,35 @@ def gen_scaffold(rng, pid, kind, name=None, max_branches=4, max_depth=4, fail_ra
         if out[0] == "panic":
             out = ("panic", hid)
         p.handler = dict(kind=hk, id=hid, out=out, block=rng.chance(1, 2), pos=rng.below(nb + 1))
+    return p
+
+
+def gen_panic_beside_waiter(rng, pid, kind, profile):
+    """A thread-spawning program in which a branch panics in a step while a *later* sibling of that step does not return before
+    the program is over (its callback waits for a release that comes only after the macro expression has been left): the panic
+    must reach the caller all the same - a caller that first waits for every sibling is left blocked (watchdog)."""
+    p = gen_scaffold(rng, pid, kind, profile=profile, fail_rate=(0, 1), panic_rate=(0, 1), handler_rate=(0, 1), block_rate=(0, 1))
+    last = max(profile) - 1
+    act = [b for b, d in enumerate(profile) if d - 1 == last]
+    if len(act) < 2:
+        return p
+    i = act[rng.below(len(act) - 1)]
+    j = rng.pick([b for b in act if b > i])
+
+    def ops_of_step(br, k):
+        kk, out = 0, []
+        for op in br["ops"]:
+            if op.deferred:
+                kk += 1
+            if kk == k:
+                out.append(op)
+        return out
+    oi = [op for op in ops_of_step(p.branches[i], last) if op.cb]
+    oj = [op for op in ops_of_step(p.branches[j], last) if op.cb]
+    if not oi or not oj:
+        return p
+    oi[0].out = ("panic", oi[0].cb)
+    p.waiters = [oj[0].cb]
     return p
 
 
